@@ -71,10 +71,21 @@ class Parser:
         return self._parse_or()
 
     def _parse_or(self):
-        expr = self._parse_and()
+        expr = self._parse_concatenation()
         while self.did_eat("|"):
-            rhs = self._parse_and()
+            rhs = self._parse_concatenation()
             expr = expr | rhs
+        return expr
+
+    def _parse_concatenation(self):
+        """Parse a sequence of elements.
+
+        Concatenation binds tighter than the '|' operator.
+        """
+        expr = self._parse_and()
+        while not (self.at_end() or self.peek("|") or self.peek(")")):
+            rhs = self._parse_and()
+            expr = expr + rhs
         return expr
 
     def _parse_and(self):
